@@ -39,6 +39,10 @@ def build_calendar(spec, anchor=MON):
                        (-1, 8), (-2, 4), (-3, 0), (-4, 0.5), (-5, 8), (-8, 8), (-9, 8), (-10, 8), (-11, 8), (-12, 8)):
             d[a + off * DAY] = u
         return DirectCalendar(d)
+    if spec == 'extra_sat':
+        # a working Saturday on top of the weekly pattern: capacity that only the dated calendar knows about
+        return WeeklyCalendar(days=[0, 1, 2, 3, 4], units_per_day=8) + DirectCalendar({a + 5 * DAY: 4, a - 2 * DAY: 4, a + 12 * DAY: 4,
+                                                                                      a - 9 * DAY: 4})
     if spec == 'holidays':
         return WeeklyCalendar(days=[0, 1, 2, 3, 4], units_per_day=8) - DirectCalendar({a + DAY: 8, a + 2 * DAY: 4,
                                                                                       a - DAY * 3: 8, a - DAY * 4: 4})
@@ -153,6 +157,26 @@ class BuildRejected(Exception):
     """pjplan's own mutators rejected the structure (e.g. a direct dependency cycle): not an input."""
 
 
+class _Handle:
+    """A custom attribute value that cannot be copied or pickled (a connection, a lock, an open file)."""
+
+    def __init__(self):
+        import threading
+        self.lock = threading.Lock()
+
+    def __repr__(self):
+        return '<handle>'
+
+
+def _special_value(v):
+    """Scenario attribute values '@handle' / '@generator' stand for objects that JSON cannot carry."""
+    if v == '@handle':
+        return _Handle()
+    if v == '@generator':
+        return (x for x in (1, 2, 3))
+    return v
+
+
 def build(sc):
     """Build the WBS through the public API. Returns (wbs, [task objects in sc order], [ext task objects])."""
     from pjplan import Task, WBS
@@ -161,7 +185,12 @@ def build(sc):
     for (tid, par, attrs) in sc.tasks:
         # custom attributes of several kinds: a text, and - on every second task - values that are falsy or None
         extra = {'owner': None, 'ticket': 0, 'note': ''} if len(objs) % 2 == 0 else {}
+        attrs = {k: _special_value(v) for k, v in attrs.items()}
         objs.append(Task(tid, name='n%s' % tid, tag='g%s' % tid, **extra, **attrs))
+    for t in objs:
+        for k, v in list(vars(t).items()):
+            if isinstance(v, str) and v.startswith('@task'):
+                setattr(t, k, objs[int(v[5:])])  # a custom attribute that refers to another task of the plan
     try:
         for (tid, par, attrs), t in zip(sc.tasks, objs):
             if par is None:
@@ -348,7 +377,14 @@ class SchedObs:
         k = (id(res), day)
         v = self._cap.get(k)
         if v is None:
-            v = res.get_available_units(day)
+            # the capacity is what the resource's CALENDAR says for the day now (C17 defines calendars; a resource adds "0 where the
+            # calendar has no information"), not what the resource object answers: the resource is part of what is being checked
+            cal = getattr(res, 'calendar', None)
+            if cal is not None:
+                v = cal.get_available_units(day)
+                v = 0 if v is None else v
+            else:
+                v = res.get_available_units(day)
             self._cap[k] = v
         return v
 
